@@ -68,6 +68,9 @@ func vBytes(tag string, n int) []byte {
 	return b
 }
 
+// vChoose forks over 0..n-1 without involving the solver (the choice is still recorded as an input).
+func vChoose(tag string, n int) int { return int(vNext(tag)) }
+
 // vParam is a bound chosen on the command line of the check (concrete in both worlds).
 var vParams = map[string]int{}
 
